@@ -206,6 +206,21 @@ def _contact_skips(chk, fi, fm, loop) -> None:
         if eqs and eqs <= {"chain", "number", "icode", "model", "name"}:
             ident.append((st, eqs))
             other.remove(st)
+    # object equality of the two residues: what does Residue3D.__eq__ compare?
+    for st in list(other):
+        for g in facts([Guard(st.test, True, "if", st)]):
+            if norm(g.test) in ("residue_i == residue_j", "residue_j == residue_i") and g.polarity:
+                cmp_fields = _eq_fields(chk.repo, "tertiary", "Residue3D")
+                if cmp_fields is None:
+                    chk.error("same-residue-identity", fi.site(st), "equality of Residue3D not understood")
+                elif "atoms" in cmp_fields:
+                    chk.violation("same-residue-identity", fi.site(st), f"`{norm(g.test)}` uses the dataclass equality of Residue3D, which also compares the atom tuples {sorted(cmp_fields)}: two fragments of one residue (atoms not contiguous in the file) are different objects, so contacts inside that residue are reported as interactions of the residue with itself", K(fi, "same-residue-object-eq"), found=sorted(cmp_fields))
+                else:
+                    chk.ok("same-residue-identity", fi.site(st), f"`{norm(g.test)}` compares {sorted(cmp_fields)}")
+                other.remove(st)
+                if not (found["same-label"] or found["same-auth"]):
+                    found["same-label"] = found["same-auth"] = [st]
+                break
     for st, eqs in ident:
         missing = {"chain", "number", "icode"} - eqs
         chk.expect(
@@ -233,6 +248,46 @@ def _contact_skips(chk, fi, fm, loop) -> None:
         d = [v for s, v in astq.assignments(loop, nm) if v is not None and any(s is x for x in loop.body)]
         chk.expect(len(d) == 1 and norm(d[0]) == want, "contact-roles", fi.site(loop), f"{nm} = {want}", f"{nm} is not looked up from the query index it is named after ({[norm(x) for x in d]})", K(fi, f"role:{nm}"))
 
+
+
+def _eq_fields(repo, module: str, cls: str) -> Optional[set]:
+    """Fields compared by `==` on instances of a dataclass (explicit __eq__: the self attributes it reads)."""
+    mod = repo.module(module)
+    cd = mod.classes.get(cls)
+    if cd is None:
+        return None
+    fields = set()
+    seen = set()
+    cur = cd
+    chain = []
+    while cur is not None and cur.name not in seen:
+        seen.add(cur.name)
+        chain.append((module, cur))
+        nxt = None
+        for b in cur.bases:
+            if isinstance(b, ast.Name):
+                for m2 in repo.modules.values():
+                    if b.id in m2.classes:
+                        nxt = m2.classes[b.id]
+                        module = m2.name
+        cur = nxt
+    for m2, c2 in chain:
+        for st in c2.body:
+            if isinstance(st, ast.FunctionDef) and st.name == "__eq__":
+                return {x.attr for x in ast.walk(st) if isinstance(x, ast.Attribute) and isinstance(x.value, ast.Name) and x.value.id == "self"}
+        break  # only the class itself may override; inherited dataclass eq is regenerated by @dataclass
+    is_dc = any("dataclass" in norm(d) for d in cd.decorator_list)
+    if not is_dc:
+        return None
+    if any("eq=False" in norm(d) for d in cd.decorator_list):
+        return set()
+    for m2, c2 in reversed(chain):
+        for st in c2.body:
+            if isinstance(st, ast.AnnAssign) and isinstance(st.target, ast.Name) and "ClassVar" not in norm(st.annotation):
+                if st.value is not None and isinstance(st.value, ast.Call) and astq.callee_name(st.value) == "field" and any(k.arg == "compare" and norm(k.value) == "False" for k in st.value.keywords):
+                    continue
+                fields.add(st.target.id)
+    return fields
 
 
 def _angle_window(chk, fi, fm, inl, loop, fold, c) -> None:
